@@ -218,13 +218,14 @@ type faultWriter struct {
 	calls   int
 	failAt  int
 	partial bool // the failing call accepts half of its bytes before reporting the error
+	once    bool // only that one call fails; later writes would be accepted again
 	failed  bool
 }
 
 func (w *faultWriter) Write(p []byte) (int, error) {
 	idx := w.calls
 	w.calls++
-	if w.failAt >= 0 && idx >= w.failAt {
+	if w.failAt >= 0 && idx >= w.failAt && !(w.once && w.failed) {
 		if w.partial && !w.failed && len(p) > 1 {
 			w.failed = true
 			w.buf.Write(p[:len(p)/2])
@@ -277,11 +278,14 @@ func c19Writer(c *mc.Ctx) {
 	failAt := c.Pick("fail-at", total)
 	partial := c.Pick("partial", 2) == 1
 	probeFirst := c.Pick("first-probe", len(c19Probe))
+	// a transient failure: the io.Writer recovers after the failed call. The Writer must not: the
+	// bytes it lost are gone, so everything after the first error still has to fail
+	once := c.Pick("transient", 2) == 1
 	c.Case(func() string {
-		return fmt.Sprintf("writer mode=%s values=%s fail at write call %d of %d partial=%v then %s", c19Modes[mode], rm.StreamString(vals), failAt, total, partial, c19Probe[probeFirst].name)
+		return fmt.Sprintf("writer mode=%s values=%s fail at write call %d of %d partial=%v transient=%v then %s", c19Modes[mode], rm.StreamString(vals), failAt, total, partial, once, c19Probe[probeFirst].name)
 	})
 	c.Class("writer/" + c19Modes[mode])
-	fw := &faultWriter{failAt: failAt, partial: partial}
+	fw := &faultWriter{failAt: failAt, partial: partial, once: once}
 	var names []string
 	var errs []error
 	var probeNames []string
@@ -373,7 +377,7 @@ func writeAll(w ion.Writer, v *rm.Value, o *drive.WriteOpts) {
 	drive.WriteValue(w, v, o)
 }
 
-var c19Modes = []string{"text", "pretty", "binary", "text-quiet", "binary-fixed-table"}
+var c19Modes = []string{"text", "pretty", "binary", "text-quiet", "binary-fixed-table", "text-imports", "binary-imports"}
 
 func newWriterTo(mode int, out io.Writer, syms []string) ion.Writer {
 	switch mode {
@@ -386,6 +390,11 @@ func newWriterTo(mode int, out io.Writer, syms []string) ion.Writer {
 	case 4:
 		// a table that already holds every symbol of the document, written lazily before the first value
 		return ion.NewBinaryWriterLST(out, ion.NewLocalSymbolTable(nil, syms))
+	case 5:
+		// constructed over a shared table: the text writer emits a symbol table before the first value
+		return ion.NewTextWriter(out, genImport())
+	case 6:
+		return ion.NewBinaryWriter(out, genImport())
 	}
 	return ion.NewBinaryWriter(out)
 }
